@@ -72,6 +72,7 @@ def gen_case(r, depth, kind=None):
         c["ty"] = g.ty(depth)
     elif k == "CallIndirect":
         c["ins"], c["outs"] = row(), row()
+        c["reqs"] = r.choice([[], [], ["tket2.quantum"], ["z.ext", "a.ext"]])
     elif k in ("Call", "LoadFunc", "FuncDecl"):
         c["params"], c["body"], c["targs"], c["inst"] = gen_poly(r, g, depth)
     elif k == "FuncDefn":
@@ -235,7 +236,7 @@ def build(c):
         op = ops.Noop(B.ty(c["ty"]))
         dataflow([c["ty"]], [c["ty"]])
     elif k == "CallIndirect":
-        f = ["func", c["ins"], c["outs"], []]
+        f = ["func", c["ins"], c["outs"], list(c.get("reqs", []))]
         op = ops.CallIndirect(B.func(f))
         dataflow([f, *c["ins"]], c["outs"])
     elif k in ("Call", "LoadFunc"):
@@ -357,6 +358,22 @@ def check_case(ctx, c, stratum="op"):
                     gt = ["raised", type(e).__name__]
                 if gt != want[1]:
                     bad("port-type", [side, off], want[1], gt)
+    if k == "CallIndirect":
+        # "prepends the function type": the WHOLE type of the function value, the requirements that are part of a
+        # function type included (the row comparison above leaves requirements out)
+        ctx.count("monitor:call-indirect-function-type-requirements")
+        want_r = sorted(c.get("reqs", []))
+        for nm, get in (("outer_signature().input[0]", lambda: op.outer_signature().input[0]),
+                        ("port_type(in 0)", lambda: op.port_type(InPort(n0, 0))),
+                        ("port_kind(in 0)", lambda: op.port_kind(InPort(n0, 0)).ty)):
+            try:
+                got_r = sorted(get()._to_serial_root().model_dump(mode="json").get("runtime_reqs", []))
+            except Exception as e:  # noqa: BLE001
+                got_r = ["raised", type(e).__name__]
+            if got_r != want_r:
+                bad("call-indirect-function-type-requirements", nm, want_r, got_r)
+        if want_r:
+            ctx.feat("feature:call-indirect-callee-with-requirements")
     for side, mk, has in (("in", InPort, k in ORDER_IN), ("out", OutPort, k in ORDER_OUT)):
         if has:
             ctx.count("monitor:order-port")
